@@ -104,6 +104,10 @@ def gen_scale(rng):
 
 
 def gen_cases(tier, seed):
+    # chains of diamonds: the number of inheritance paths doubles per level
+    for k in ((6, 10, 13) if tier == 'quick' else (6, 10, 13, 15, 16)):
+        for where in ('top', 'bottom', 'side', 'none'):
+            yield {'mode': 'diamonds', 'k': k, 'where': where}
     for i in range(2 if tier == 'quick' else 32):
         yield gen_scale(random.Random(f'C06/scale/{seed}/{tier}/{i}'))
     for dag in all_small_dags(4):
@@ -145,7 +149,106 @@ def path_counts(effective):
     return paths
 
 
+def run_diamonds(case):
+    """D0 <- (L1, R1) <- D1 <- (L2, R2) <- D2 ...: 3k+1 classes, 2**k
+    inheritance paths between D0 and Dk. Every query must give the right
+    answer after a number of loop iterations that is linear in the number
+    of classes, not in the number of paths (counted with sys.monitoring
+    JUMP events inside desper/logic/world.py; no clock involved)."""
+    import sys
+    desper = import_desper()
+    res = Res()
+    k = case['k']
+
+    def chain(base, ns):
+        tops = [type('D0', (base,), dict(ns))]
+        sides = []
+        for i in range(1, k + 1):
+            left = type(f'L{i}', (tops[-1],), {})
+            right = type(f'R{i}', (tops[-1],), {})
+            sides.append(left)
+            tops.append(type(f'D{i}', (left, right), {}))
+        return tops, sides
+
+    class CRoot:
+        pass
+    ctops, csides = chain(CRoot, {})
+    ptops, psides = chain(desper.Processor,
+                          {'process': lambda self, dt=1: None})
+    nclasses = 3 * k + 1
+    w = desper.World()
+    where = case['where']
+    comp = proc = None
+    if where != 'none':
+        cls = {'top': ctops[0], 'bottom': ctops[-1],
+               'side': csides[len(csides) // 2]}[where]
+        comp = cls()
+        pcls = {'top': ptops[0], 'bottom': ptops[-1],
+                'side': psides[len(psides) // 2]}[where]
+        proc = pcls()
+    e = w.create_entity(*( [comp] if comp is not None else [CRoot()]))
+    if proc is not None:
+        w.add_processor(proc)
+    mon = sys.monitoring
+    tool = 3
+    code_file = desper.logic.world.__file__
+    count = [0]
+
+    def on_jump(code, offset, dest):
+        if code.co_filename != code_file:
+            return mon.DISABLE
+        count[0] += 1
+
+    budget = 40 * nclasses + 200
+    queries = [
+        ('get', lambda: [c for _, c in w.get(ctops[0])],
+         lambda r: r == ([comp] if comp is not None else [])),
+        ('has_component', lambda: w.has_component(e, ctops[0]),
+         lambda r: r is (comp is not None)),
+        ('get_component', lambda: w.get_component(e, ctops[0]),
+         lambda r: r is comp),
+        ('get_processor', lambda: w.get_processor(ptops[0]),
+         lambda r: r is proc),
+        ('remove_processor', lambda: w.remove_processor(ptops[0]),
+         lambda r: r is proc),
+        ('remove_component', lambda: w.remove_component(e, ctops[0]),
+         lambda r: r is comp),
+    ]
+    mon.use_tool_id(tool, 'vf-c06-walk')
+    mon.register_callback(tool, mon.events.JUMP, on_jump)
+    mon.set_events(tool, mon.events.JUMP)
+    try:
+        for name, run, good in queries:
+            count[0] = 0
+            result = run()
+            res.stats['queries_checked'] += 1
+            res.stats['walk_iterations_counted'] += count[0]
+            res.tags['walk_iterations_per_class'].add(
+                round(count[0] / nclasses))
+            if not good(result):
+                res.div(k, name, f'{name}(D0) on a chain of {k} diamonds '
+                        f'(component on {where})', 'the matching object',
+                        repr(result))
+                break
+            if count[0] > budget:
+                res.div(k, 'walk-visits-paths-not-classes', f'{name}(D0) on '
+                        f'a chain of {k} diamonds ({nclasses} classes, '
+                        f'2**{k} inheritance paths) needed {count[0]} loop '
+                        'iterations', f'<= {budget} (linear in the classes)',
+                        count[0])
+                break
+    finally:
+        mon.set_events(tool, 0)
+        mon.register_callback(tool, mon.events.JUMP, None)
+        mon.free_tool_id(tool)
+    res.nontrivial = True
+    res.sample = {'k': k, 'classes': nclasses}
+    return res
+
+
 def run_case(case):
+    if case.get('mode') == 'diamonds':
+        return run_diamonds(case)
     desper = import_desper()
     res = Res()
     dag = case['dag']
@@ -426,6 +529,10 @@ def _fin(res, *_):
 
 
 def shrink(case):
+    if case.get('mode') == 'diamonds':
+        if case['k'] > 2:
+            yield dict(case, k=case['k'] - 1)
+        return
     dag = case['dag']
     n = len(dag)
     # drop the last class
